@@ -56,7 +56,6 @@ func init() {
 			"the API's error responder is the function that api.ServeError holds when the error is served (the field is exported and documented as the hook): after the application has reassigned it, an invocation of an earlier function is a violation",
 			"a response rendered without a matched operation (route-less Respond, NotFound) has no declared status: its status is not judged; its offers are the produces handed in (NotFound: the API default alone) without the API default, the default last; a value when nothing is acceptable is not judged there (no 406 gate ran)",
 			"a negotiated type for which no producer is registered (declared_types_without_producer; api.Validate() would refuse the configuration): who writes the body, or a 'can't find a producer' panic, is not judged; judged: nothing is produced twice, a producer that ran got the handler's value and the body is its output; HEAD/204 and errors as everywhere",
-			"TRIAGE-PENDING: a Responder handed to a route-less Respond (nil-pointer panic on the unchanged tree, /tmp/alarms3/C08-responder-without-route.json) is not generated (var responderWithoutRoute)",
 		},
 		MinNontrivial: 150,
 		Run:           run,
@@ -2048,13 +2047,11 @@ func genOutcome(r *rand.Rand, i int) Outcome {
 	return o
 }
 
-// TRIAGE-PENDING: Context.Respond(rw, r, produces, nil, aResponder) dereferences the nil route on the unchanged tree
-// (middleware/context.go:575, `route.Producers`; signatures panic-other/respond-without-route/custom-responder/* and
-// .../library-responder/*, witness /tmp/alarms3/C08-responder-without-route.json, proposed repair
-// /tmp/alarms3/C08-responder-without-route.diff). Until the lead has decided, exactly that shape (a Responder -
-// custom, or the library's middleware.Error - handed to a route-less Respond) is not generated; runDirect judges it
-// (and a replay of the witness fires) as soon as this is set.
-var responderWithoutRoute = false
+// Context.Respond(rw, r, produces, nil, aResponder) dereferenced the nil route (middleware/context.go, `route.Producers`;
+// signatures panic-other/respond-without-route/custom-responder/* and .../library-responder/*). Repaired in the library by
+// de11287 and pinned in known_findings.json; the shape (a Responder - custom, or the library's middleware.Error - handed to a
+// route-less Respond) is generated and judged by runDirect.
+var responderWithoutRoute = true
 
 var directOutcomes = []string{"value", "value", "value", "value", "nil", "api-error", "plain-error", "composite-error", "responder", "lib-error"}
 
